@@ -275,6 +275,42 @@ def scipy_shim():
     pl.ComplementProjector._verif_shim = True
 
 
+def unrelated_computation(nb, seed, kind):
+    """Another, unrelated block diagonalisation in the same process (same number of blocks, its own inputs): defined and
+    asked for a few elements between the operations of a world.  Nothing of it is compared; what the world's own
+    computations return afterwards must not depend on it."""
+    import warnings
+
+    from pymablock import block_diagonalize
+    from scipy import sparse
+
+    rg = np.random.default_rng(seed)
+    with warnings.catch_warnings():
+        warnings.simplefilter("ignore")
+        if kind == "implicit":
+            if nb < 2:
+                return
+            scipy_shim()
+            N = nb + 2
+            e = 1.5 * np.arange(N) + rg.uniform(0, 0.3, size=N)
+            V = rg.normal(size=(N, N))
+            V = V + V.T
+            vecs = [np.eye(N)[:, [k]] for k in range(nb - 1)]
+            out = block_diagonalize([sparse.diags(e).tocsr(), sparse.csr_array(V)], subspace_eigenvectors=vecs)
+            out[0][0, 0, 2]
+            out[0][nb - 1, nb - 1, 1]
+            out[1][0, nb - 1, 1]
+        else:
+            N = 2 * nb
+            e = 1.5 * np.arange(N) + rg.uniform(0, 0.3, size=N)
+            V = rg.normal(size=(N, N)) + 1j * rg.normal(size=(N, N))
+            V = V + V.conj().T
+            out = block_diagonalize([np.diag(e), V], subspace_indices=np.repeat(np.arange(nb), 2),
+                                    fully_diagonalize=tuple(range(nb)) if kind == "explicit_fd" else ())
+            out[0][0, 0, 2]
+            out[1][0, nb - 1, 2]
+
+
 # =========================================================================================
 # worlds
 
@@ -1182,6 +1218,17 @@ class GraphProp:
             kind = op[0]
             env.begin(opi)
             try:
+                if kind == "aux":
+                    # an unrelated computation defined and used in between (its own inputs; nothing of it is compared)
+                    try:
+                        unrelated_computation(len(world["sizes"]), op[2], op[1])
+                        bump("unrelated_computation_" + op[1])
+                    except batch.RunTimeout:
+                        raise
+                    except Exception as e:  # noqa: BLE001
+                        fail("unrelated-computation-raised", f"op#{opi} {op}: {type(e).__name__}: {e}")
+                    env.events.append(("aux", opi, op[1]))
+                    continue
                 if kind == "build":
                     c = op[1]
                     if c >= len(world["comps"]):
@@ -1878,6 +1925,9 @@ class GraphProp:
                 ops.append(["sl", c, s, item])
             if r.random() < 0.1 and ops[-1][0] in ("get", "sl", "vget"):
                 ops.append(list(ops[-1]))  # repeated request
+        if r.random() < profile.get("p_aux", 0.12) and world["domain"] in ("dense", "sparse", "sym"):
+            # the process also runs an unrelated computation with the same number of blocks in between
+            ops.insert(r.randint(0, len(ops)), ["aux", r.choice(["implicit", "implicit", "explicit", "explicit_fd"]), r.randrange(1 << 30)])
         return ops
 
     @staticmethod
